@@ -68,11 +68,25 @@ def workdir(prop):
     return d
 
 
-def run(cmd, cwd=None, inp=None, timeout=None, env=None):
+# Watchdogs are on CPU time (RLIMIT_CPU of the child and, individually, of its children): the machine is often saturated
+# (load 100+), and a wall-clock limit then turns a 12-second compile into a false alarm.  The wall-clock timeout that remains
+# is a backstop of hours.
+WALL_BACKSTOP = 6 * 3600
+
+
+def _cpu_limiter(seconds):
+    def f():
+        import resource
+        resource.setrlimit(resource.RLIMIT_CPU, (int(seconds), int(seconds) + 10))
+    return f
+
+
+def run(cmd, cwd=None, inp=None, timeout=None, env=None, cpu_limit=None):
     e = dict(os.environ)
     if env:
         e.update(env)
-    p = subprocess.run(cmd, cwd=cwd, input=inp, capture_output=True, text=True, timeout=timeout, env=e)
+    p = subprocess.run(cmd, cwd=cwd, input=inp, capture_output=True, text=True, timeout=timeout, env=e,
+                       preexec_fn=_cpu_limiter(cpu_limit) if cpu_limit else None)
     return p.returncode, p.stdout, p.stderr
 
 
@@ -95,7 +109,7 @@ class LakeLock:
 def lake_build(targets):
     """Build the given lake targets (modules / exe). Returns (ok, output)."""
     with LakeLock():
-        rc, out, err = run(["lake", "build"] + list(targets), cwd=LEAN, timeout=3600)
+        rc, out, err = run(["lake", "build"] + list(targets), cwd=LEAN, timeout=WALL_BACKSTOP)
     return rc == 0, out + err
 
 
@@ -150,7 +164,7 @@ def audit_axioms(module, theorems, tag):
         for t in theorems:
             f.write(f"#print axioms {t}\n")
     with LakeLock():
-        rc, out, err = run(["lake", "env", "lean", src], cwd=LEAN, timeout=1800)
+        rc, out, err = run(["lake", "env", "lean", src], cwd=LEAN, timeout=WALL_BACKSTOP, cpu_limit=3600)
     res = {t: None for t in theorems}
     text = out + err
     for t in theorems:
@@ -234,7 +248,7 @@ class Driver:
     def ask(self, lines):
         if not lines:
             return []
-        rc, out, err = run([self.exe], inp="\n".join(lines) + "\n", timeout=3600)
+        rc, out, err = run([self.exe], inp="\n".join(lines) + "\n", timeout=WALL_BACKSTOP, cpu_limit=4 * 3600)
         res = out.split("\n")
         if res and res[-1] == "":
             res.pop()
@@ -288,7 +302,9 @@ UBSAN_ENV = {"UBSAN_OPTIONS": "suppress_equal_pcs=0:print_summary=0", "ASAN_OPTI
 
 
 def cxx(src, out, compiler="g++", std="c++14", opt="-O1", san=True, extra=(), syntax_only=False,
-        timeout=1800):
+        timeout=None, cpu_limit=3000):
+    """`timeout` (wall clock) is honoured if given, but only as a floor of the backstop: the effective limits are `cpu_limit`
+    seconds of CPU per compiler process and WALL_BACKSTOP of wall time."""
     cmd = [compiler, f"-std={std}", opt, "-I", AU_INC, "-ffp-contract=off", "-w"]
     if compiler == "exact" and san:
         san = "exact"
@@ -303,7 +319,7 @@ def cxx(src, out, compiler="g++", std="c++14", opt="-O1", san=True, extra=(), sy
         cmd += [src, "-o", out]
         if san == "exact" and "-c" not in extra:
             cmd += [EXACT_HANDLERS]
-    rc, o, e = run(cmd, timeout=timeout)
+    rc, o, e = run(cmd, timeout=max(timeout or 0, WALL_BACKSTOP), cpu_limit=cpu_limit)
     return rc, o + e
 
 
